@@ -3,7 +3,7 @@
    output length), so collisions appear as explicit disjuncts, never as hidden assumptions. *)
 From Coq Require Import NArith List.
 From LV Require Import Model.Envelope Proofs.Envelope Gen.SegmentMap.
-From LV Require Import Model.Routing Proofs.Routing Model.CatalogueCodec Proofs.CatalogueCodec.
+From LV Require Import Model.Routing Proofs.Routing Model.CatalogueCodec Proofs.CatalogueCodec Proofs.SegmentCodec.
 Import ListNotations.
 Open Scope N_scope.
 
@@ -80,6 +80,17 @@ Qed.
 Theorem C14_sections_roundtrip :
   forall k, exists w, ser_sec k = Some w /\ de_sec w = Some k.
 Proof. intros k; destruct k; eexists; split; reflexivity. Qed.
+
+(* ... lifted to a column's whole codec (the list of ops a partition file stores): any codec free of the
+   placeholder op can be written, and what is written reads back as the same list, op for op, parameter
+   for parameter *)
+Theorem C14_codec_roundtrip :
+  forall ops ws, map_opt ser_op ops = Some ws -> map_opt de_op ws = Some ops.
+Proof. exact codec_roundtrip. Qed.
+
+Theorem C14_codec_total :
+  forall ops, Forall (fun o => o <> CO_Unknown) ops -> exists ws, map_opt ser_op ops = Some ws.
+Proof. exact codec_total. Qed.
 
 (* non-vacuity *)
 Example C14_example :
